@@ -142,6 +142,20 @@ func (v *aArray) emitStoreToAddr(addr Value, offset int) (insts []wat.Inst) {
 	return v.aStruct.emitStoreToAddr(addr, offset)
 }
 
+func (v *aArray) emitEq(r Value) (insts []wat.Inst, ok bool) {
+	if !v.Type().Equal(r.Type()) {
+		logger.Fatal("v.Type() != r.Type()")
+	}
+	return v.aStruct.emitEq(&r.(*aArray).aStruct)
+}
+
+func (v *aArray) emitCompare(r Value) (insts []wat.Inst) {
+	if !v.Type().Equal(r.Type()) {
+		logger.Fatal("v.Type() != r.Type()")
+	}
+	return v.aStruct.emitCompare(&r.(*aArray).aStruct)
+}
+
 func (v *aArray) emitIndexOf(m *Module, id Value) (insts []wat.Inst) {
 	fn_name := v.typ.genFunc_IndexOf(m)
 	if len(fn_name) == 0 {
